@@ -16,7 +16,11 @@ def call(E, name, args, kwargs, node):
     fn = TABLE.get(name)
     if fn is not None:
         return fn(E, args, kwargs, node)
-    raise Unsupported('library function %s' % name)
+    if E.mod_init:
+        raise Unsupported('library function %s' % name)
+    # a library function without a model: an opaque call (any result, may raise, does not touch the modelled heap)
+    E.lib_used.add('unmodelled library function %s: treated as an opaque call' % name)
+    return E.opaque_call(VO('lib:' + name), list(args), dict(kwargs), node, label='library ' + name)
 
 
 def re_compile(E, args, kwargs, node):
@@ -174,6 +178,9 @@ def exc_ctor(name):
 
 
 def aq_base(E, args, kwargs, node):
+    from . import tainted as _T
+    if args and (_T.is_tainted(E, args[0]) or E.is_strlike(args[0])):
+        return args[0]          # not an acquisition wrapper: aq_base is the identity
     _assumed(E, 'Acquisition.aq_base(x): returns the unwrapped object, does not raise, calls nothing')
     f = z3.Function('aq_base', Val, Val)
     return VO_term(f(E.to_val(args[0])), E.fresh('aqbase'))
